@@ -11,7 +11,7 @@
     ALL API request outcomes (faults before or after the effect) and ALL schedules of third-party
     writes (which make the controller's Updates fail with Conflict and send the deployment
     reconciler through its retry loop). *)
-From Coq Require Import List NArith Bool Lia.
+From Coq Require Import List NArith Bool Lia Permutation.
 From PKO Require Import Util Package PackageProofs.
 From PKOCorr Require Import C16Corr.
 Import ListNotations.
@@ -73,6 +73,41 @@ Theorem C16_not_deployable_no_deploy :
             od_tmpl (st_w (r_st (pass digest o s))) = od_tmpl (st_w s).
 Proof. exact (fun digest => not_deployable_no_deploy digest true). Qed.
 Print Assumptions C16_not_deployable_no_deploy.
+
+(** ** The constraint LIST.  [mk_oracle] runs the loop of checkConstraints over the entries of
+    manifest.spec.constraints ([constraint_loop], statement by statement, with its `continue` for a
+    platformVersion constraint of another platform and its error returns).  The loop is a
+    conjunction: the constraints can be evaluated iff every entry parses, and then there is no
+    message iff every entry is met, an entry for another platform being neutral. *)
+Theorem C16_constraint_list_conjunction :
+  forall pull load cs cfg images render,
+    let o := mk_oracle pull load cs cfg images render in
+    o_range_ok o = constraints_evaluable cs /\
+    (constraints_evaluable cs = true -> is_nil (o_unmet o) = constraints_met cs) /\
+    is_some (o_unique o) = existsb is_unique_entry cs.
+Proof. exact mk_oracle_constraints. Qed.
+Print Assumptions C16_constraint_list_conjunction.
+
+(** ... independent of the order of the list: what a pass depends on (unmet, not evaluable, valid
+    and admissible) is the same for every permutation, among any peers. *)
+Theorem C16_constraints_permutation :
+  forall pull load cs cs' cfg images render sc ps,
+    Permutation cs cs' ->
+    let o := seen sc ps (mk_oracle pull load cs cfg images render) in
+    let o' := seen sc ps (mk_oracle pull load cs' cfg images render) in
+    unmet o = unmet o' /\ cons_err o = cons_err o' /\ all_ok o = all_ok o' /\
+    forall fixed, deployable fixed o = deployable fixed o'.
+Proof. exact constraints_permutation. Qed.
+Print Assumptions C16_constraints_permutation.
+
+(** One unmet entry anywhere in an evaluable list blocks the deployment write. *)
+Theorem C16_unmet_entry_blocks :
+  forall digest scoped pull load cs cfg images render w f d,
+    constraints_evaluable cs = true -> constraints_met cs = false ->
+    let r := do_pass digest true scoped (mk_oracle pull load cs cfg images render) w f d in
+    none_of is_od_write (st_log (r_st r)) = true /\ od_tmpl (st_w (r_st r)) = od_tmpl w.
+Proof. exact unmet_entry_blocks. Qed.
+Print Assumptions C16_unmet_entry_blocks.
 
 (** The constraints clause was REFUTED for the code before cb58cda (F-C16, defect fixed by cb58cda):
     validateConstraints recorded Invalid/ConstraintsFailed and returned nil, Deploy went on, wrote
